@@ -782,6 +782,12 @@ func (y *yieldDS) perturb() {
 		for i := 0; i < int(z>>8%4); i++ {
 			runtime.Gosched()
 		}
+	case 4:
+		// now and then a read that is much slower than the rest, so that some inputs of a cycle
+		// member are still producing when the rest of the cycle has gone quiet
+		if z>>8%5 == 0 {
+			time.Sleep(time.Duration(500+z>>16%1500) * time.Microsecond)
+		}
 	}
 }
 
